@@ -166,8 +166,11 @@ class Expression:
         "%": lambda a, b: a % b,
     }
 
+    # Internal token for unary minus; not a valid identifier, so it cannot collide with a field or constant name
+    UNARY_MINUS: ClassVar[str] = "-u"
+
     unary_operators: ClassVar[dict[str, Callable[[int], int]]] = {
-        "u": lambda a: -a,
+        UNARY_MINUS: lambda a: -a,
         "~": lambda a: ~a,
     }
 
@@ -182,7 +185,7 @@ class Expression:
         "*": 5,
         "/": 5,
         "%": 5,
-        "u": 6,
+        UNARY_MINUS: 6,
         "~": 6,
         "sizeof": 6,
     }
@@ -236,10 +239,10 @@ class Expression:
         for i in range(len(self.tokens)):
             if self.tokens[i] == "-":
                 if i == 0:
-                    self.tokens[i] = "u"
+                    self.tokens[i] = self.UNARY_MINUS
                     continue
-                if self.tokens[i - 1] in operators or self.tokens[i - 1] == "u" or self.tokens[i - 1] == "(":
-                    self.tokens[i] = "u"
+                if self.tokens[i - 1] in operators or self.tokens[i - 1] == "(":
+                    self.tokens[i] = self.UNARY_MINUS
                     continue
 
         i = 0
